@@ -57,6 +57,18 @@ def check_construct(ctx, fields, data, frame=True):
     hv = tuple(int(x) for x in pkt.header_values)
     if hv != tuple(fields) + (len(data) - 1,):
         return "header-values", f"header_values {hv} expected {tuple(fields) + (len(data) - 1,)}"
+    # the other order on a fresh object: header_values first, the single accessors afterwards (and str())
+    fresh = packets.RawPacketData(bytes(pkt))
+    hv2 = tuple(int(x) for x in fresh.header_values)
+    got2 = (fresh.version_number, fresh.type, fresh.secondary_header_flag, fresh.apid, fresh.sequence_flags,
+            fresh.sequence_count, fresh.data_length)
+    if hv2 != tuple(fields) + (len(data) - 1,) or tuple(int(x) for x in got2) != hv2:
+        return "accessors-after-header-values", (f"fields {kwargs}: header_values {hv2}, accessors read afterwards {got2}")
+    text = str(fresh)
+    for name, val in zip(("version_number", "type", "secondary_header_flag", "apid", "sequence_flags", "sequence_count",
+                          "data_length"), hv2):
+        if f"{name}={val}" not in text:
+            return "str", f"str(packet) {text!r} does not show {name}={val}"
     if frame:
         try:
             framed = list(islice(packets.ccsds_generator(bytes(pkt)), 3))
